@@ -108,7 +108,7 @@ UNITS = [
 _HIST = ["EqStats.v", "EqCusum.v", "EqSPC.v", "EqHDDM.v", "EqHDDMW.v", "EqRDDM.v", "EqExec.v"]
 EQ = {
     "C01": _HIST,  # constant-stream silence over the generated code, for every update/reset history
-    "C18": ["EqStats.v"],
+    "C18": ["EqStats.v", "EqSrcStats.v"],
     "C07": ["EqStats.v", "EqCusum.v"],
     "C19": ["EqStats.v", "EqConfig.v"],
     "C02": _HIST,  # reset() = where a fresh history starts, over the generated code
